@@ -11,14 +11,12 @@
    class and the messages before it) except the body bytes already delivered for the message
    whose chunk framing turned out malformed (I/O-class error): those are not compared.
 
-   NOT PROVED (kept visible):
-     C01_chunked_sound (converse of C01_chunked_grammar_accepted): every accepted chunked body is
-     a rendering of the grammar (plausible since the repair of F3, C01_empty_chunk_size_rejected).
-     The dispatcher-level claims (4xx, close, nothing dispatched after) have no model here; they
-     are judged on the real dispatcher by runner B. *)
+   NOT MODELLED: which response goes out and the socket shutdown (no model of the response side
+   here; judged on the real dispatcher by runner B). The READ_DISCONNECT gate that makes a
+   rejection final is modelled in H1/Gate.v (section 8). *)
 From AV Require Import Lib.Base Gen.Consts H1.Chunked H1.ChunkedSpec H1.ChunkedProofs H1.PayloadDec
   H1.PayloadDecProofs H1.Framing H1.FramingProofs H1.Codec H1.SimpleHead H1.CodecProofs
-  H1.CodecSegProofs H1.Gate H1.GateProofs.
+  H1.CodecSegProofs H1.Gate H1.GateProofs H1.ChunkedSound.
 
 (* ===== 1. segmentation independence of the body decoders (unbounded) ======================= *)
 
@@ -78,6 +76,15 @@ Theorem C01_chunked_grammar_accepted : forall cs last rest acc,
   Forall chunk_wf cs -> last_wf last ->
   bw Size 0 (render_body cs last ++ rest) acc = Ok (End, 0, rest, acc ++ body_data cs, true).
 Proof. exact grammar_accepted. Qed.
+
+(* and conversely: whatever the decoder accepts is a rendering of the grammar, and the body it
+   delivers is exactly the chunk data (no byte of framing leaks into the body, no data byte is
+   taken for framing) *)
+Theorem C01_chunked_sound : forall buf acc szf rest body,
+  bw Size 0 buf acc = Ok (End, szf, rest, body, true) ->
+  exists cs last, Forall chunk_wf cs /\ last_wf last /\
+    buf = render_body cs last ++ rest /\ body = acc ++ body_data cs.
+Proof. intros buf acc szf rest body H. eapply (chunked_sound (S (length buf))); [lia|exact H]. Qed.
 
 (* F3 (repaired in /repo bdb7061): chunk-size = 1*HEXDIG. A size line that does not start with a
    hex digit - "\r\n", ";ext\r\n", " \r\n", at the first chunk or after any chunk - is an error,
